@@ -1802,7 +1802,32 @@ func (ctx Ctx) multipleAssignStmt(s *ast.AssignStmt) coq.Binding {
 	return coq.Binding{Names: make([]string, 0), Expr: coq.BlockExpr{Bindings: coqStmts}}
 }
 
+// isLoggingCall reports whether e is a call that is translated to a comment
+// (see packageMethod).
+func isLoggingCall(e ast.Expr) bool {
+	call, ok := e.(*ast.CallExpr)
+	if !ok {
+		return false
+	}
+	f, ok := call.Fun.(*ast.SelectorExpr)
+	if !ok {
+		return false
+	}
+	switch f.Sel.Name {
+	case "Println", "Printf":
+		return isIdent(f.X, "log") || isIdent(f.X, "fmt")
+	case "Print":
+		return isIdent(f.X, "log")
+	}
+	return false
+}
+
 func (ctx Ctx) assignStmt(s *ast.AssignStmt) coq.Binding {
+	if len(s.Rhs) == 1 && isLoggingCall(s.Rhs[0]) {
+		// the call becomes a comment, which leaves the names unbound
+		ctx.unsupported(s, "results of a logging call")
+		return coq.Binding{}
+	}
 	if s.Tok == token.DEFINE {
 		return ctx.defineStmt(s)
 	}
